@@ -302,17 +302,17 @@ class LosGen:
     def __init__(self, rng, plan, nobj, ngc):
         self.rng, self.ops = rng, [f"los reset {plan}"]
         self.young, self.old, self.dead = set(), set(), set()
-        self.next, self.nobj, self.ngc = 1, nobj, ngc
+        self.next, self.nobj, self.ngc, self.count = 1, nobj, ngc, 0
         self.aslive = False
         self.stats = {"gcs": 0, "full": 0, "max_full_survivals": 0}
         self.surv = {}             # id -> consecutive full GCs survived
 
     def alloc(self, k=1):
         for _ in range(k):
-            if self.next > self.nobj:
+            if self.count >= self.nobj:
                 return
             o = self.next if self.rng.random() < 0.8 else self.rng.randrange(self.next, self.next + 40)
-            self.next = o + 1
+            self.next, self.count = o + 1, self.count + 1
             (self.old if self.aslive else self.young).add(o)
             self.ops.append(f"los alloc {o}")
 
@@ -330,7 +330,7 @@ class LosGen:
             traced.add(o)
             if rng.random() < 0.15:
                 self.ops.append(f"los trace {o}")                                       # immediate re-trace
-            if rng.random() < 0.06 and self.next <= self.nobj:                          # allocation as live while marking
+            if rng.random() < 0.06 and self.count < self.nobj:                          # allocation as live while marking
                 self.ops.append("los aslive 1"); self.aslive = True
                 self.alloc(rng.randrange(1, 3))
                 if rng.random() < 0.5:
@@ -395,7 +395,7 @@ class LosSpec(unit.UnitSpec):
         n = 500 if tier == "quick" else 6000
         cases = []
         for i in range(n):
-            nobj, ngc = rng.choice([1, 2, 3, 5, 8, 13, 25]), rng.choice([1, 1, 2, 3, 4, 6, 8])
+            nobj, ngc = rng.choice([1, 2, 3, 5, 8, 8, 13, 13, 20, 25, 25]), rng.choice([1, 1, 2, 3, 4, 6, 8])
             if rng.random() < 0.8:
                 ops, shape = LosGen(rng, self.plan, nobj, ngc).history()
                 cases.append(Case(ops, tag="los:" + shape))
